@@ -71,6 +71,28 @@ ARB_MAIN = r"""
 """
 
 
+ARB_SURJ_MAIN = r"""
+    // ---- C14: the generator's range equals the valid set (exhaustive over all inputs of <= 2 bytes, for
+    // settings whose valid set lies strictly inside the window [-300, 300])
+    {
+        @SETUP@
+        for (si, set) in settings.iter().enumerate() {
+            set();
+            let lo_w: i128 = -300; let hi_w: i128 = 300;
+            let in_ty = |x: i128| x >= (@I@::MIN as i128) && x <= (@I@::MAX as i128);
+            let valid: Vec<@I@> = (lo_w..=hi_w).filter(|x| in_ty(*x)).map(|x| x as @I@).filter(|x| @R@::valid(x)).collect();
+            let edge = |x: i128| in_ty(x) && @R@::valid(&(x as @I@));
+            if valid.is_empty() || valid.len() > 300 || edge(lo_w) || edge(hi_w) || edge(hi_w + 1) || edge(lo_w - 1) || @R@::valid(&@I@::MIN) || @R@::valid(&@I@::MAX) { continue; }
+            let mut produced = std::collections::BTreeSet::new();
+            let mut run = |p: &[u8]| { if let Ok(Ok(v)) = std::panic::catch_unwind(|| { let mut u = arbitrary::Unstructured::new(p); <@S@ as arbitrary::Arbitrary>::arbitrary(&mut u).map(|v| v.into_inner()) }) { produced.insert(v); } };
+            run(&[]);
+            for a in 0..=255u8 { run(&[a]); for b in 0..=255u8 { run(&[a, b]); } }
+            for v in valid.iter() { if !produced.contains(v) { report("ArbitrarySurjective", &format!("valid value {:?}", v), &format!("arbitrary setting #{}", si), "never produced by any input of <= 2 bytes".to_string(), "produced by some input".to_string(), &mut n); } }
+        }
+    }
+"""
+
+
 ARB_STRING_MAIN = r"""
     // ---- String Arbitrary (C09), BOUNDED exploration: a length-selector byte followed by up to 4 chars
     // (4 little-endian bytes each) from an alphabet of whitespace / case-expanding / multi-byte chars,
@@ -267,6 +289,8 @@ def witness_crate(d: Decl, extra_inputs=()):
         main.append('    for (x, label) in cands { check_one(x, label, "", &mut n); }\n')
     if 'Arbitrary' in d.derives and d.family in ('int', 'float'):
         main.append(ARB_MAIN.replace('@S@', S).replace('@R@', R).replace('@I@', I).replace('@SETUP@', arb_settings(d)))
+    if 'Arbitrary' in d.derives and d.family == 'int':
+        main.append(ARB_SURJ_MAIN.replace('@S@', S).replace('@R@', R).replace('@I@', I).replace('@SETUP@', arb_settings(d)))
     if 'Arbitrary' in d.derives and d.family == 'string':
         main.append(ARB_STRING_MAIN.replace('@S@', S).replace('@R@', R))
     main.append('    println!("{{\\"mismatches\\":{}}}", n);\n}\n')
